@@ -39,7 +39,14 @@ def _work(idx):
     out = {"id": p["id"], "witnesses": [], "lost": [], "ind_bad": [], "inconclusive": 0,
            "traces": [], "checked_pins": 0, "checked_inds": 0, "errors": [], "default": None,
            "replayed": 0, "replay_mismatch": [], "buf_bad": [], "checked_bufs": 0, "outside_window": 0}
+    opts = dict(opts, **p.get("_opts", {}))
     try:
+        for hp in opts.get("history", []):
+            # unrelated problems built and solved earlier in the same interpreter (C14)
+            hb = B.build(hp)
+            hs = B.make_solver(hb)
+            with B.silence():
+                hs.solve()
         b, s = A.initialized_solver(p, build_kw=opts.get("build_kw"), **opts.get("solver_kw", {}))
         smt_assertions = None
         if opts.get("via_smt2"):
@@ -114,6 +121,14 @@ def _work(idx):
                 sol = s.solve()
             must = [v for v in V.values() if not v.get("unspec")]
             out["default"] = {"solved": bool(sol), "V": len(V), "V_must": len(must)}
+            if sol and len(p["objs"]) == 1 and len(must) == len(V) and V:
+                # the optimum reached by the default (incremental) optimiser against the best value over V(P)
+                import scenarios as SC
+                vals = [SC.objective_values(p, v)[0] for v in V.values()]
+                if all(len(x) == 1 or p["objs"][0]["cls"] == "ObjectiveMinimizeMakespan" for x in vals):
+                    best = min(x[0] for x in vals) if p["objs"][0]["kind"] == "minimize" else max(x[-1] for x in vals)
+                    got = s._model.eval(b.objs[0]._target, model_completion=True).as_long()
+                    out["optimum"] = {"got": got, "best": best}
             if sol and not p["user_horizon"] and max([t.end for t in sol.tasks.values()] + [0]) > p["H"]:
                 out["outside_window"] += 1  # no user horizon: the library may go beyond the bounded window
             elif sol:
@@ -153,7 +168,7 @@ def _work(idx):
     return out
 
 
-def run_family(problems, opts=None, procs=16, tlc_timeout=3000):
+def run_family(problems, opts=None, procs=16, tlc_timeout=3000, fresh=False):
     """Returns a result dict for the whole family."""
     global _FAMILY
     opts = opts or {}
@@ -164,8 +179,8 @@ def run_family(problems, opts=None, procs=16, tlc_timeout=3000):
     _FAMILY = [(p, V[p["id"]], opts) for p in problems]
     ctx = mp.get_context("fork")
     t1 = time.time()
-    with ctx.Pool(min(procs, max(1, len(problems)))) as pool:
-        results = pool.map(_work, range(len(problems)), chunksize=max(1, len(problems) // (procs * 8)))
+    with ctx.Pool(min(procs, max(1, len(problems))), maxtasksperchild=1 if fresh else None) as pool:
+        results = pool.map(_work, range(len(problems)), chunksize=1 if fresh else max(1, len(problems) // (procs * 8)))
     t_impl = time.time() - t1
     # batch trace validation
     traces, owners = [], []
